@@ -191,9 +191,12 @@ def phaseWeight : Phase → Nat
   | .returned _ => 1
   | _ => 0
 
+def phaseSum (c : Cfg) (s : State) : Nat := (c.sel.map (fun n => phaseWeight (s.phase n))).sum
+def pendSum (c : Cfg) (s : State) : Nat := (c.sel.map (fun n => if s.pend n then 1 else 0)).sum
+
 def measure (c : Cfg) (s : State) : Nat :=
-  (c.sel.map (fun n => phaseWeight (s.phase n))).sum
-  + c.sel.countP (fun n => s.pend n)
+  phaseSum c s
+  + pendSum c s
   + (if s.retErr.isSome then 0 else c.sel.length + 1)
   + (if s.ff then 0 else c.sel.length + 1)
   + (if s.ctx then 0 else 1)
